@@ -440,9 +440,15 @@ fn run_op(w: &mut World, f: &[&str]) -> St {
                 cmp_set_probe(Some(Box::new(move || unsafe { format!("{}.{}", $cnt(&*rx), $cnt(&*ry)) })));
             }}; }
             let r = match (sa, sb) {
-                (A(x), A(y)) => { probe!(x, y, |h: &Arc<T>| Arc::count(h)); let r = cmp_full(x, y); let r2 = cmp_eq_dbg(&x.borrow_arc(), &y.borrow_arc()); (r.0, r.1, r.2 && r2.2 && r.0 == r2.0, r.3 + r2.3) }
+                (A(x), A(y)) => {
+                    probe!(x, y, |h: &Arc<T>| Arc::count(h)); let r = cmp_full(x, y); let r2 = cmp_eq_dbg(&x.borrow_arc(), &y.borrow_arc());
+                    // ptr_eq (Arc and ArcBorrow) answers "same allocation", and agrees with the addresses
+                    let pe = Arc::ptr_eq(x, y); let pe2 = ArcBorrow::ptr_eq(&x.borrow_arc(), &y.borrow_arc());
+                    let same = x.heap_ptr() == y.heap_ptr();
+                    (r.0, r.1, r.2 && r2.2 && r.0 == r2.0 && pe == same && pe2 == same, r.3 + r2.3)
+                }
                 (AB(x), AB(y)) => { probe!(x, y, |h: &Arc<TB>| Arc::count(h)); cmp_full(x, y) }
-                (AS(x), AS(y)) => { probe!(x, y, |h: &Arc<[T]>| Arc::count(h)); cmp_full(x, y) }
+                (AS(x), AS(y)) => { probe!(x, y, |h: &Arc<[T]>| Arc::count(h)); let r = cmp_full(x, y); (r.0, r.1, r.2 && Arc::ptr_eq(x, y) == (x.heap_ptr() == y.heap_ptr()), r.3) }
                 (AH(x), AH(y)) => { probe!(x, y, |h: &Arc<HS>| Arc::count(h)); cmp_full(x, y) }
                 (AW(x), AW(y)) => { probe!(x, y, |h: &Arc<HWL>| Arc::count(h)); cmp_full(x, y) }
                 (Th(x), Th(y)) => { probe!(x, y, |h: &ThinArc<T, T>| ThinArc::strong_count(h)); cmp_full(x, y) }
